@@ -123,6 +123,16 @@ theorem fast_read_refines_std (P : Prog) (hP : SchemaOK P) (hI : IdsInt16 P) (si
   refine ⟨bs.length - r.length, ?_, by omega⟩
   simp [fastRead, fastReadWith, e, bind]
 
+/-- **object reuse**: the refinement holds for EVERY object the caller already holds (a recycled object, an object
+another message was read into), not only for a fresh `NewX()`: whenever the standard Read of `bs` INTO `cur` succeeds,
+FastRead of `bs` into `cur` builds the same object — in particular both REPLACE a container the object already holds
+(an IDL default installed by `NewX()`, the entries of an earlier message) by what is on the wire; neither merges.
+(`fastRead`/`Std.read` are the instance `cur = NewX()`; nested struct-likes always start from `NewT()` in both codes.) -/
+theorem fast_read_into_refines_std (P : Prog) (hP : SchemaOK P) (hI : IdsInt16 P) (sidx : Nat) (cur obj : GoVal) (bs : Bytes)
+    (hB : B256 bs) (h : stdReadInto P sidx cur bs = some obj) :
+    ∃ n, fastReadInto P sidx cur bs = .ok (obj, n) ∧ n ≤ bs.length :=
+  fastReadInto_refines curSkip (guardedSkip_refines _ _ _) P (progOK_of P hP hI) sidx cur obj bs hB h
+
 /-- **on every encoding the standard Write produces, FastRead yields the object the standard Read yields** and
 consumes exactly the encoding. -/
 theorem fast_read_eq_std_on_written (P : Prog) (hP : SchemaOK P) (hI : IdsInt16 P) (sidx : Nat) (obj : GoVal) (bs : Bytes)
@@ -276,6 +286,11 @@ example : SortedSchema exSorted := by
   match i, h with
   | 0, h => cases h; decide
 example : fastWrite exSorted 5 0 (.strct [.bytes [97], .int 5, .list [.int 7]]) = Res.toFRes (write exSorted 0 (.strct [.bytes [97], .int 5, .list [.int 7]])) := by rfl
+/-- reuse: the default `{1: [9]}`-style container of the object is replaced, not merged, by both readers -/
+example : stdReadInto exProg 0 (.strct [.list [.int 1, .int 2], .int 0, .nil]) [15, 0, 3, 10, 0, 0, 0, 1, 0, 0, 0, 0, 0, 0, 0, 7, 8, 0, 1, 0, 0, 0, 5, 0] =
+    some (.strct [.list [.int 7], .int 5, .nil]) := by rfl
+example : fastReadInto exProg 0 (.strct [.list [.int 1, .int 2], .int 0, .nil]) [15, 0, 3, 10, 0, 0, 0, 1, 0, 0, 0, 0, 0, 0, 0, 7, 8, 0, 1, 0, 0, 0, 5, 0] =
+    .ok (.strct [.list [.int 7], .int 5, .nil], 24) := by rfl
 example : SkipBounded (fun _ _ => .err) := fun _ _ => trivial
 example : B256 [8, 0, 1, 0, 0, 0, 5, 0] := by intro b hb; simp at hb; omega
 
